@@ -193,6 +193,9 @@ struct VirtualSocket<T, Env> {
 
     this_poll: ThisPoll,
 
+    #[cfg(librqbit_utp_verif)]
+    verif_buffered_max: (usize, usize, usize),
+
     env: Env,
 
     drop_guard: DropGuardSendBeforeDeath<ControlRequest>,
@@ -913,6 +916,20 @@ impl<T: Transport, Env: UtpEnvironment> VirtualSocket<T, Env> {
         Ok(())
     }
 
+    /// Verification only: tell the observer when this connection buffers more than ever before.
+    #[cfg(librqbit_utp_verif)]
+    fn verif_report_buffered(&mut self) {
+        let b = self.user_rx.verif_buffered();
+        let m = self.verif_buffered_max;
+        if b.0 > m.0 || b.1 > m.1 || b.2 > m.2 {
+            self.verif_buffered_max = (b.0.max(m.0), b.1.max(m.1), b.2.max(m.2));
+            crate::verif_hooks::emit(&format!(
+                "vsock-buf remote={} id={} rxq={} ooq_msgs={} ooq_bytes={}",
+                self.remote, self.conn_id_send, b.0, b.1, b.2
+            ));
+        }
+    }
+
     /// Before dying, ensure cleanup and notifications are done.
     fn just_before_death(&mut self, cx: &mut std::task::Context<'_>, error: Option<&crate::Error>) {
         if let Some(err) = error {
@@ -932,6 +949,9 @@ impl<T: Transport, Env: UtpEnvironment> VirtualSocket<T, Env> {
 
         // In-order data that did not fit into the reader's queue yet must not be lost.
         self.user_rx.flush_on_close();
+
+        #[cfg(librqbit_utp_verif)]
+        self.verif_report_buffered();
 
         if let Some(e) = error {
             self.user_rx.enqueue_error(format!("{e:#}"));
@@ -1610,6 +1630,9 @@ impl<T: Transport, Env: UtpEnvironment> VirtualSocket<T, Env> {
                 );
             }
 
+            #[cfg(librqbit_utp_verif)]
+            self.verif_report_buffered();
+
             // If there's a timer-based next poll to run, arm the timer.
             if let Some(instant) = self.next_timer_to_poll() {
                 let duration = instant - self.this_poll.now;
@@ -1826,6 +1849,8 @@ impl<T: Transport, E: UtpEnvironment> UtpStreamStarter<T, E> {
                 }
                 rtte
             },
+            #[cfg(librqbit_utp_verif)]
+            verif_buffered_max: (0, 0, 0),
             this_poll: ThisPoll {
                 now,
                 tmp_buf: vec![0u8; (ss.max_ss() + UTP_HEADER) as usize],
